@@ -1,4 +1,5 @@
 """C17 - decompression of JWE plaintext is bounded (E1, exploration around the limit)."""
+import copy
 import hashlib
 import json
 import tracemalloc
@@ -336,6 +337,43 @@ def h_not_compressed(ctx):
     return Outcome(f"not-compressed:{where.split()[0]}:{'returned' if d.ok else 'rej:' + d.etype}", vs, nontrivial=(form, where, framing, n))
 
 
+def h_retained(ctx):
+    """A process that keeps receiving over-limit messages: after each one is refused and the error dropped, nothing of what was inflated
+    stays allocated - what is retained does not grow with the number of refused messages."""
+    import gc
+    framing = ctx.choose("framing", ["raw", "zlib-default"])
+    form = ctx.choose("form", ["compact", "flattened"])
+    n = ctx.choose("refused_messages", [3, 12])
+    expands = ctx.choose("each_expands_to", [LIMIT + 1, 1 << 22])
+    body = stream(framing, expands, "constant")
+    t = c16.jwe_seed("dir", "oct16", "A128GCM", form, zipv="DEF")
+    tok = c16.jwe_wire(t, form, body=body)
+    key = A.jkey(scen.key("oct16"), "dict")
+    from joserfc.errors import ExceededSizeError
+    scen.jwe_decrypt(copy.deepcopy(tok), key, ["dir", "A128GCM", "DEF"])       # warm: imports, caches
+    gc.collect()
+    tracemalloc.start()
+    base = tracemalloc.get_traced_memory()[0]
+    kinds = set()
+    for _ in range(n):
+        d = scen.jwe_decrypt(copy.deepcopy(tok), key, ["dir", "A128GCM", "DEF"])
+        kinds.add("returned" if d.ok else type(d.exc).__name__)
+        del d
+    gc.collect()
+    retained = tracemalloc.get_traced_memory()[0] - base
+    tracemalloc.stop()
+    vs = []
+    what = f"{n} x a {framing} stream expanding to {expands} octets, {form}"
+    if kinds != {"ExceededSizeError"}:
+        vs.append(viol("an over-limit stream is not refused with the exceeded-size error every time it is presented", f"{what}: {sorted(kinds)}"))
+    bound = LIMIT // 2 + 8 * len(json.dumps(tok))
+    if retained > bound:
+        vs.append(viol("memory stays allocated after over-limit messages were refused and the errors dropped", f"{what}: {retained} octets retained (bound {bound}); about {retained // n} per refused message"))
+    return Outcome(f"retained:{'ok' if not vs else 'BAD'}", vs, nontrivial=(framing, form, n, expands))
+
+
+_pret = Part("memory-after-refused-messages", h_retained, split_depth=2)
+_pret.single_bucket_ok = True
 _pcs = Part("several-streams-back-to-back", h_concatenated, split_depth=2)
 _pcs.single_bucket_ok = True
 _pa = Part("same-object-serialized-again", h_again, split_depth=2)
@@ -349,4 +387,5 @@ PARTS = [
     Part("decryptions-after-a-rejected-stream", h_after_rejected, split_depth=3),
     _pcs,
     Part("messages-that-were-not-compressed", h_not_compressed, split_depth=2),
+    _pret,
 ]
